@@ -7,6 +7,7 @@ package main
 // Lean small-step model (txn.run); thorough tier adds a free-running goroutine stress (built with -race).
 
 import (
+	"errors"
 	"bytes"
 	"fmt"
 	"io"
@@ -23,14 +24,59 @@ func init() { register("C04", c04) }
 type hookWriter struct {
 	buf     bytes.Buffer
 	onWrite func()
+	failNow bool // the bytes reach the peer, the call reports a failure all the same (a write-timeout wrapper)
 }
+
+var errC04Timeout = errors.New("c04: write deadline exceeded (bytes were delivered)")
 
 func (w *hookWriter) Write(p []byte) (int, error) {
 	w.buf.Write(p)
 	if w.onWrite != nil {
 		w.onWrite()
 	}
+	if w.failNow {
+		return len(p), errC04Timeout
+	}
 	return len(p), nil
+}
+
+// controlWire: what a peer may send at any time between the responses — a ping request, a stream-begin event,
+// a window acknowledgement size. The reader delivers them like any message; nothing about them concerns the
+// request table or the writer.
+func controlWire(k int) []byte {
+	var wire bytes.Buffer
+	peer := rtmp.NewProtocol(&h.RW{Writer: &wire})
+	switch k % 3 {
+	case 0:
+		uc := rtmp.NewUserControl()
+		uc.EventType, uc.EventData = rtmp.EventTypePingRequest, int32(1000+k)
+		peer.WritePacket(uc, 0)
+	case 1:
+		uc := rtmp.NewUserControl()
+		uc.EventType, uc.EventData = rtmp.EventTypeStreamBegin, 1
+		peer.WritePacket(uc, 0)
+	default:
+		wa := rtmp.NewWindowAcknowledgementSize()
+		wa.AckSize = 2500000
+		peer.WritePacket(wa, 0)
+	}
+	return wire.Bytes()
+}
+
+// requestsWire: the bytes a writer puts on the wire for these requests when nothing else happens.
+func requestsWire(reqs []txnReq) []byte {
+	var wire bytes.Buffer
+	p := rtmp.NewProtocol(&h.RW{Writer: &wire})
+	for _, rq := range reqs {
+		if rq.kind == "connect" {
+			p.WritePacket(rtmp.NewConnectAppPacket(), 0)
+		} else {
+			pk := rtmp.NewCreateStreamPacket()
+			pk.TransactionID = amf0.Number(rq.tid)
+			p.WritePacket(pk, 0)
+		}
+	}
+	return wire.Bytes()
 }
 
 // responseWire builds the peer's _result for request (kind, tid) as chunk-stream bytes.
@@ -55,10 +101,37 @@ type txnReq struct {
 // runSchedule executes one schedule on the real code. events: "W<i>" (WritePacket i; the r's listed in
 // inW[i] run inside its transport Write) and r's in after[i] run after it returned.
 func runSchedule(reqs []txnReq, inW, after [][]int) (matched, failed []string, wrongType string) {
+	matched, failed, wrongType, _ = runScheduleNoise(reqs, inW, after, false)
+	return
+}
+
+// runScheduleNoise: with noise, every response is preceded by a control message of the peer; wire is what the
+// endpoint put on the transport during the whole schedule.
+func runScheduleNoise(reqs []txnReq, inW, after [][]int, noise bool) (matched, failed []string, wrongType string, wire []byte) {
 	in := &bytes.Buffer{}
 	hw := &hookWriter{}
 	p := rtmp.NewProtocol(&h.RW{Reader: in, Writer: hw})
+	defer func() { wire = append([]byte(nil), hw.buf.Bytes()...) }()
+	nctl := 0
 	process := func(j int) {
+		if noise {
+			in.Write(controlWire(nctl))
+			nctl++
+			m, err := p.ReadMessage()
+			if err != nil {
+				failed = append(failed, "control(read)")
+				return
+			}
+			if pkt, err := p.DecodeMessage(m); err != nil {
+				failed = append(failed, "control(decode)")
+			} else {
+				switch pkt.(type) {
+				case *rtmp.UserControl, *rtmp.WindowAcknowledgementSize:
+				default:
+					wrongType += fmt.Sprintf("control:%T ", pkt)
+				}
+			}
+		}
 		in.Write(responseWire(reqs[j].kind, reqs[j].tid))
 		m, err := p.ReadMessage()
 		if err != nil {
@@ -123,6 +196,7 @@ func c04(c *h.Ctx) {
 	order := c.O.Call("txn.order")
 	c.Note("extracted txnOrder = " + order)
 	maxN := c.N(3, 4)
+	nsched := 0
 	for n := 1; n <= maxN; n++ {
 		// variants: all createStream; connect (fixed transaction id 1) at each position of the request sequence
 		for variant := 0; variant <= n; variant++ {
@@ -172,7 +246,14 @@ func c04(c *h.Ctx) {
 								}
 							}
 							// (for writeThenRegister the reg step of request i comes after the inW slot: handled above)
-							matched, failed, wrong := runSchedule(reqs, inW, after)
+							// every other schedule with control traffic of the peer between the responses
+							nsched++
+							noise := nsched%2 == 0
+							matched, failed, wrong, wire := runScheduleNoise(reqs, inW, after, noise)
+							if want := requestsWire(reqs); !bytes.Equal(wire, want) {
+								c.Hold(false, "wire.exactly_the_requests_once", fmt.Sprintf("schedule n=%d inW=%v after=%v noise=%v", n, inW, after, noise),
+									h.Trunc(h.Hex(wire), 400), h.Trunc(h.Hex(want), 400))
+							}
 							var tids []string
 							for _, r := range reqs {
 								tids = append(tids, fmt.Sprint(int(r.tid)))
@@ -217,6 +298,59 @@ func c04(c *h.Ctx) {
 				}
 			}
 			rec(0)
+		}
+	}
+
+	// the transport DELIVERS the last request and reports a failure all the same (a deadline wrapper): the request
+	// was handed to the transport, its response arrives afterwards and must be matched like any other
+	for n := 1; n <= 3; n++ {
+		for variant := 0; variant <= 1; variant++ {
+			reqs := make([]txnReq, n)
+			for i := range reqs {
+				reqs[i] = txnReq{"createStream", float64(2 + i*3)}
+			}
+			if variant == 1 {
+				reqs[n-1] = txnReq{"connect", 1}
+			}
+			in := &bytes.Buffer{}
+			hw := &hookWriter{}
+			p := rtmp.NewProtocol(&h.RW{Reader: in, Writer: hw})
+			var werrs []string
+			for i, rq := range reqs {
+				hw.failNow = i == n-1
+				var err error
+				if rq.kind == "connect" {
+					err = p.WritePacket(rtmp.NewConnectAppPacket(), 0)
+				} else {
+					pk := rtmp.NewCreateStreamPacket()
+					pk.TransactionID = amf0.Number(rq.tid)
+					err = p.WritePacket(pk, 0)
+				}
+				werrs = append(werrs, fmt.Sprint(err != nil))
+			}
+			delivered := bytes.Equal(hw.buf.Bytes(), requestsWire(reqs))
+			var got []string
+			for j := n - 1; j >= 0; j-- {
+				in.Write(responseWire(reqs[j].kind, reqs[j].tid))
+				m, err := p.ReadMessage()
+				if err != nil {
+					got = append(got, "read-err")
+					continue
+				}
+				pkt, err := p.DecodeMessage(m)
+				if err != nil {
+					got = append(got, "unmatched")
+					continue
+				}
+				got = append(got, fmt.Sprintf("%T", pkt))
+			}
+			id := fmt.Sprintf("write of the last of %d requests (%s) is delivered and reports an error; responses in reverse order", n, reqs[n-1].kind)
+			ok := delivered && werrs[n-1] == "true"
+			for _, g := range got {
+				ok = ok && strings.HasSuffix(g, "ResPacket")
+			}
+			c.Hold(ok, "delivered_request_is_answerable", id, fmt.Sprintf("delivered=%v write-errors=%v responses=%v", delivered, werrs, got), "every response matched")
+			c.Case(fmt.Sprintf("failed-write/n=%d,last=%s", n, reqs[n-1].kind), id, true)
 		}
 	}
 
